@@ -2,6 +2,7 @@ import MokapotVerif.Props.C02
 import MokapotVerif.Props.C03
 import MokapotVerif.Props.C13
 import MokapotVerif.Props.C14
+import MokapotVerif.Props.C10
 /-!
 # C05 — Results do not depend on chunk sizes, worker count, thread timing or file format
 
@@ -131,6 +132,15 @@ theorem C05_format_invariant {β : Type} (ft : Tabular.CsvFile β) (fp : Tabular
   obtain ⟨b, hb, hrb, _, _⟩ :=
     Tabular.C13_reader_chunked_eq_read _ (Tabular.pqReader_chunkOK fp) c₂ h₂ cols F hP
   exact ⟨a, b, ha, hb, hra.trans hrb.symm⟩
+
+/-- column-scan chunk size, row-scan chunk size and the completion order of the scan tasks of
+`read_pin`: any two configurations parse a well-formed table into the same dataset -/
+theorem C05_colscan_chunk_invariant {t : Pin.Table} (h : Pin.WellFormed t) {c r c' r' : Nat}
+    (hc : 1 ≤ c) (hr : 1 ≤ r) (hc' : 1 ≤ c') (hr' : 1 ≤ r')
+    (order order' : List (List Pin.Name) → List (List Pin.Name))
+    (hord : ∀ l, (order l).Perm l) (hord' : ∀ l, (order' l).Perm l) :
+    Pin.readPercolatorSched {} c r t order = Pin.readPercolatorSched {} c' r' t order' :=
+  Pin.C10_chunking_and_schedule_irrelevant h hc hr hc' hr' order order' hord hord'
 
 /-! non-vacuity: a permutation of three fold-tagged models is put back in fold order -/
 #guard [(3, "c"), (1, "a"), (2, "b")].mergeSort (fun a b => decide (a.1 ≤ b.1)) == [(1, "a"), (2, "b"), (3, "c")]
